@@ -18,6 +18,14 @@ pub unsafe fn znx_switch_ring_avx(res: &mut [i64], a: &[i64]) {
             return;
         }
 
+        if n_in.min(n_out) < 4 {
+            // fewer than four coefficients on one side: the 4-lane loops below would read and write past the slices
+            use poulpy_cpu_ref::reference::znx::znx_switch_ring_ref;
+
+            znx_switch_ring_ref(res, a);
+            return;
+        }
+
         if n_in > n_out {
             // Downsample: res[k] = a[k * gap_in], contiguous stores
             let gap_in: usize = n_in / n_out;
